@@ -380,6 +380,40 @@ def spec_check(ops):
     return None
 
 
+def nested_index_check(rng):
+    """-> None | (tree description, path, what)"""
+    from cpppo import dotdict
+    n = rng.randrange(1, 5)
+    # (the index expression is evaluated at the level that holds the list: the selector lives at that same level)
+    pre = rng.choice(['', '', 'a.', 'm.n.'])
+    rows, sel = pre + rng.choice(['rows', 'm']), rng.choice(['sel', 's', 'cfg.sel'])
+    sub, ix = rng.choice(['name', 'v', 'x.y']), rng.choice(['idx', 'i', 'p.q'])
+    d = dotdict()
+    vals = [rng.randrange(100, 200) for _ in range(n)]
+    picks = [rng.randrange(n) for _ in range(rng.randrange(1, 4))]
+    d[rows] = [dotdict({sub: v}) for v in vals]
+    d[pre + sel] = [dotdict({ix: k}) for k in picks]
+    desc = {rows: vals, pre + sel: picks, 'sub': sub, 'ix': ix}
+    for j, k in enumerate(picks):
+        path = '%s[%s[%d].%s].%s' % (rows, sel, j, ix, sub)
+        try:
+            got = d[path]
+        except Exception as e:
+            return desc, path, 'a path that is in the tree (element %d of %s) cannot be looked up: %s' % (k, rows, type(e).__name__)
+        if got != vals[k]:
+            return desc, path, 'lookup returns %r, the element it denotes holds %r' % (got, vals[k])
+        try:
+            if path not in d or d.get(path) != vals[k]:
+                return desc, path, 'membership / get disagree with lookup'
+            d[path] = vals[k] + 1000
+            if d['%s[%d].%s' % (rows, k, sub)] != vals[k] + 1000:
+                return desc, path, 'assignment by the nested index did not reach the element it denotes'
+            vals[k] += 1000
+        except Exception as e:
+            return desc, path, 'membership / get / assignment by a path that is in the tree raises %s' % type(e).__name__
+    return None
+
+
 def resolve_cases(maxlen):
     alpha = 'ab.[]'
     for n in range(1, maxlen + 1):
@@ -451,7 +485,18 @@ def run(ctx):
             nbad += 1
             if nbad <= 3:
                 ctx.violation(dict(ops=[repr(o)[:160] for o in ops[:bad[0] + 1]], at=bad[0]), bad[1])
-    cov['evaluations'] = len(rs) + sum(len(o) for o in seqs)
+    # index expressions that are themselves paths into the tree (rows[sel[0].idx].name): outside the model (which knows name[<digits>]),
+    # judged on the implementation alone against the element they denote
+    nnest = 0
+    for _ in range(200 if ctx.thorough else 40):
+        res = nested_index_check(rng)
+        nnest += 1
+        if res is not None:
+            nbad += 1
+            if nbad <= 3:
+                ctx.violation(dict(tree=res[0], path=res[1]), res[2])
+    cov['nested_index_scenarios'] = nnest
+    cov['evaluations'] = len(rs) + sum(len(o) for o in seqs) + nnest
     cov['distinct_nontrivial'] = len({repr(o) for ops in seqs for o in ops if o[0] != 'keys' and ('.' in o[1])})
     cov['rule'] = ('(a) every string with a dot over {a,b,.,[,]} up to length %d through _resolve (exhaustive); (b) %d seeded operation sequences of 3-30 '
                    'set/get/in/del/pop/setdefault/keys over dotted paths (depth<=4, ".." segments, leading/trailing dots, name[i] and name[ i] '
